@@ -220,8 +220,8 @@ def check_dotdot(ctx, prog):
     for s_ in ir.walk_stmts(rp['body']):
         if s_.get('k') == 'decl':
             for v in s_['vars']:
-                if v['id'] == iv and v.get('init') is not None:
-                    writes.append((v['init'], s_.get('l')))
+                if v['id'] == iv and v.get('init') is not None and const_val(v['init']) != 0:
+                    writes.append((v['init'], s_.get('l')))     # (an initial position 0 = searching from the start of the text)
     for e in q._writes_to(rp, iv):
         if e.get('k') == 'bin' and e.get('op') == '=':
             writes.append((e['y'], e.get('l')))
